@@ -13,9 +13,10 @@ N_RE = re.compile(r"^N(-?\d+)\s+(.*?)\*(\d+)\s*$")
 
 
 def xor_checksum(text):
+    """XOR of the bytes on the wire (the firmware sees bytes, not code points)."""
     c = 0
-    for ch in text:
-        c ^= ord(ch)
+    for b in text.encode("utf-8"):
+        c ^= b
     return c
 
 
